@@ -752,7 +752,12 @@ unsafe fn do_ftruncate(
         let path = st.fd(fd)?.0;
         let (call, fault) = st.begin_call(Class::Write, &path);
         if let Some(k) = fault {
-            if k != FaultKind::Short {
+            // a full disk does not refuse to make a file shorter
+            let shrinks = unsafe {
+                let mut sb: libc::stat = std::mem::zeroed();
+                libc::fstat(fd, &mut sb) == 0 && (len as i64) <= sb.st_size as i64
+            };
+            if k != FaultKind::Short && !(k == FaultKind::Enospc && shrinks) {
                 set_errno(errno_of(k));
                 return Some(-1);
             }
